@@ -47,7 +47,7 @@ def build(case, seen):
     from sparseSpACE.GridOperation import Integration
     dim = case["dim"]
     a, b = np.array(case["a"], dtype=float), np.array(case["b"], dtype=float)
-    gs = [drive.driver_function(dim, case["fseed"] + 7 * i) for i in range(case["nout"])]
+    gs = [drive.fit_to_box(drive.driver_function(dim, case["fseed"] + 7 * i), case["a"], case["b"]) for i in range(case["nout"])]
 
     def fun(x):
         seen.add(tuple(float(t) for t in x))
@@ -296,7 +296,7 @@ def _strategy(kind):
             xs, ws = np.polynomial.legendre.leggauss(12)
             ref = []
             for i in range(nout):
-                g = drive.driver_function(dim, fseed + 7 * i)
+                g = drive.fit_to_box(drive.driver_function(dim, fseed + 7 * i), a, b)
                 tot = 0.0
                 for idx in itertools.product(range(12), repeat=dim):
                     pt = [a[d] + (b[d] - a[d]) * (xs[j] + 1) / 2 for d, j in enumerate(idx)]
